@@ -551,13 +551,31 @@ def _vars_line_entries(binc, arm_body):
         for p_ in tp_['params']:
             if 'pat' in p_ and _re.search(r'(\[|Vec<)std::string::String', str((p_.get('ty') or {}).get('s'))): names_params.add(unwrap_pat(p_['pat']).get('var'))
     entry_binds = set()
+    zipped_names = set()
+    def note_zip(it, pat):
+        # which bindings of the loop pattern are the headers zipped on: zip(a, b) with pattern (pa, pb); enumerate(x) with pattern (i, p)
+        it = strip(it); pat = unwrap_pat(pat)
+        while it['k'] == 'Call' and it['args'] and (callee_name(it) or '').split('::')[-1] in ('iter', 'into_iter', 'by_ref') and len(it['args']) == 1: it = strip(it['args'][0])
+        if it['k'] != 'Call' or pat['k'] != 'Leaf' or 'adt' in pat: return
+        subs = {sp['field']: sp['pat'] for sp in pat['subs']}
+        d = callee_decl(it)
+        if d == 'std::iter::Iterator::enumerate' and 1 in subs: note_zip(it['args'][0], subs[1])
+        if d == 'std::iter::Iterator::zip' and len(it['args']) == 2:
+            for k_, a_ in enumerate(it['args']):
+                if k_ in subs:
+                    if root_var(a_) in names_params and strip(a_)['k'] != 'Call' or (strip(a_)['k'] == 'Call' and (callee_name(strip(a_)) or '').split('::')[-1] in ('iter', 'into_iter') and root_var(a_) in names_params):
+                        zipped_names.update(walk_pat_bindings(subs[k_]))
+                    else: note_zip(a_, subs[k_])
     def item_kind(e):
         # the name shown for an entry is the header of *that* column: names[i] with `names` the parameter holding the free-variable
         # headers and i the position of the entry in the row - not a look-up in another list (the full variable list is longer)
         idx = [x for x in walk(e) if x['k'] == 'Index' or (x['k'] == 'Call' and callee_decl(x) in ('std::ops::Index::index',)) or
                (x['k'] == 'Call' and (callee_name(x) or '').split('::')[-1] in ('get', 'get_unchecked', 'nth') and len(x['args']) == 2)]
         foreign = [x for x in walk(e) if x['k'] == 'Call' and (callee_name(x) or '').startswith('rsbdd::parser::')]
-        if tp_ is not None:
+        loopvars_ = set(x['var'] for x in walk(e) if x['k'] in ('VarRef', 'UpvarRef') and x['var'] in entry_binds)
+        if tp_ is not None and not idx and not foreign and loopvars_ and loopvars_ <= zipped_names:
+            pass          # `for (value, name) in values.iter().zip(names)`: the header walks along with the entry
+        elif tp_ is not None:
             okn = len(idx) == 1 and not foreign
             if okn:
                 b_, i_ = (idx[0]['lhs'], idx[0]['index']) if idx[0]['k'] == 'Index' else (idx[0]['args'][0], idx[0]['args'][1])
@@ -647,7 +665,10 @@ def _vars_line_entries(binc, arm_body):
                 if m_['k'] == 'Match' and m_.get('source') == 'ForLoopDesugar':
                     for a_ in m_['arms']:
                         p_ = unwrap_pat(a_['pat'])
-                        if p_['k'] == 'Variant' and p_['variant'] == 'Some' and p_['subs']: cands.append((walk_pat_bindings(p_['subs'][0]['pat']), a_['body']))
+                        if p_['k'] == 'Variant' and p_['variant'] == 'Some' and p_['subs']:
+                            cands.append((walk_pat_bindings(p_['subs'][0]['pat']), a_['body']))
+                            sc_ = strip(x['scrutinee'])
+                            if sc_['k'] == 'Call' and sc_['args']: note_zip(sc_['args'][0], p_['subs'][0]['pat'])
                     break
         if x['k'] == 'Call' and callee_decl(x) == 'std::iter::Iterator::filter_map' and len(x['args']) == 2:
             cl = [y for y in walk(x['args'][1]) if y['k'] == 'Closure']
@@ -2174,6 +2195,53 @@ def rule_X6(F, R, parts=('coverage', 'labels')):
     R.sample({'rule': 'X6', 'recursive fields': rf, 'visited by nodes_recursive': {k: sorted(v) for k, v in cov_nodes.items()}, 'edges emitted': {k: sorted(v) for k, v in cov_edges.items()}})
 
 # ------------------------------------------------------------------------------------------------ X7 exporter plumbing
+def rule_X7_children(F, R):
+    """C14: the diagram exporter descends into *both* children of every decision node, for the node list and for the edge list (a walker
+    that visits one child twice leaves the other sub-diagram out: edges into nodes that are never declared); and the parse-tree exporter
+    finds the node an edge leads to by looking for the child itself (`position(|n| n == child)`)"""
+    lib = F.lib()
+    G = 'rsbdd::bdd_io::BDDGraph::'
+    nm, tn = dot_node_collector(lib)
+    for what, name, t in (('node list', nm, tn), ('edge list', G + 'edges_recursive', lib.ithir.get(G + 'edges_recursive'))):
+        if t is None:
+            R.violation('rsbdd::bdd_io::BDDGraph / X7 / %s walker' % what, 'UNDECIDABLE', 'the function that builds the %s of the diagram was not found' % what); continue
+        import facts as _facts
+        tt = dict(t); tt['body'] = _facts.unroll_array_loops(t['body'])
+        cb = choice_bindings(tt)
+        seen = set()
+        for e in walk(tt['body']):
+            if e['k'] == 'Call' and callee_name(e) == name:
+                for a in e['args']:
+                    ch = cb.get(root_var(a))
+                    if ch in (0, 2): seen.add(ch)
+        ok = seen == {0, 2}
+        R.count('X7:children-descended'); R.obligation(ok, 'X7 children ' + what)
+        if not ok:
+            R.violation('%s / X7 / both children' % name, 'X7', 'the %s must be built from both children of a decision node; the recursive calls reach %s' % (
+                what, sorted({0: 'the true-branch', 2: 'the false-branch'}[c_] for c_ in seen) or 'neither'), t['span']['loc'])
+    te = [k for k in lib.ithir if k.endswith('GraphWalk>::edges') and 'SymbolicParseTree' in k]
+    n = 0
+    if te:
+        names = [te[0]] + [k for k in lib.ithir if k.startswith(te[0] + '::{closure')]
+        for nm_ in names:
+            for e in walk(lib.ithir[nm_]['body']):
+                if e['k'] == 'Call' and callee_decl(e) == 'std::iter::Iterator::position' and len(e['args']) == 2:
+                    cl = strip(e['args'][1])
+                    ct = lib.ithir.get(canon(cl['def'])) if cl['k'] == 'Closure' else None
+                    if ct is None or len(ct['params']) != 2: continue
+                    n += 1
+                    pv = unwrap_pat(ct['params'][1]['pat']).get('var')
+                    b = ct['body']
+                    while b['k'] in ('Use', 'NeverToAny') or (b['k'] == 'Block' and not b['stmts'] and b.get('expr') is not None): b = b['source'] if b['k'] != 'Block' else b['expr']
+                    b = strip(b)
+                    l_ = r_ = None
+                    if b['k'] == 'Call' and callee_decl(b) == 'std::cmp::PartialEq::eq': l_, r_ = b['args']
+                    elif b['k'] == 'Binary' and b['op'] == 'Eq': l_, r_ = b['lhs'], b['rhs']
+                    ok = l_ is not None and {root_var(l_) == pv, root_var(r_) == pv} == {True, False}
+                    R.count('X7:position-tests'); R.obligation(ok, 'X7 position %s' % e.get('loc'))
+                    if not ok: R.violation('%s / X7 / target of an edge' % te[0], 'X7', 'the node an edge leads to must be found by equality with the child (`position(|n| n == child)`)', e.get('loc'))
+    if te and n == 0: R.violation('rsbdd::parser_io::SymbolicParseTree / X7 / VACUITY', 'VACUITY', 'no position look-up found in the parse-tree edges')
+
 def rule_X7(F, R):
     """C14: (a) every label of both exporters is built as plain text that the dot crate escapes (LabelText::label / LabelStr) - the
     `escaped` / `html` forms pass backslashes and markup through; (b) the node and edge lists of the diagram exporter and the node
@@ -2714,6 +2782,61 @@ def rule_X8(F, R, crate_name, kind=None):
                                 'a file opened for writing with %s keeps the tail of an existing longer file: the result is not the emitted text alone' % '.'.join(reversed(names)), e['loc'])
     if n == 0:
         R.violation('%s / X8 / VACUITY' % crate_name, 'VACUITY', 'no output file creation found in %s' % crate_name)
+
+def rule_X8_writer_choice(F, R, crate_name):
+    """the formula goes to the OUTPUT file when one is named and to standard output otherwise: the writer that main formats into is, by
+    value provenance, `output ? file(output) : stdout` - not the other way round (an inverted test sends the default run into the error
+    branch and a run with OUTPUT to the terminal).  Shapes the evaluator does not read are left alone (this clause only reports a choice it
+    can see is wrong)."""
+    import flow as _flow
+    c = F.crate(crate_name)
+    t = c.ithir.get(crate_name + '::main') if c else None
+    if t is None:
+        R.violation('%s::main / X8 / anchor' % crate_name, 'UNDECIDABLE', 'main not found'); return
+    fl = _flow.Flow(c, max_depth=0)
+    uses = {}
+    for e in walk(t['body']):
+        if e['k'] == 'Call' and (callee_name(e) or '').endswith('write_fmt') and e['args']:
+            v = root_var(e['args'][0])
+            if v: uses[v] = uses.get(v, 0) + 1
+    wv = max(uses, key=uses.get) if uses else None
+    term = None
+    if wv is not None:
+        lets = []
+        _flow.scan(fl, t['body'], {}, lambda x: False, [])
+        for b in walk(t['body']):
+            if b['k'] != 'Block': continue
+            for st in b['stmts']:
+                if st['k'] == 'Let' and st.get('init') is not None and unwrap_pat(st['pat']).get('var') == wv: lets.append(st)
+        if len(lets) == 1:
+            found = []
+            _flow.scan(fl, t['body'], {}, lambda x: x is lets[0]['init'], found)
+            if found: term = fl.ev(lets[0]['init'], found[0][1])
+    def has(tm, names):
+        if isinstance(tm, tuple):
+            if tm and tm[0] == 'call' and any(tm[1].endswith(n_) for n_ in names): return True
+            return any(has(y, names) for y in tm)
+        return False
+    FILE = ('fs::File::create', 'OpenOptions::open', 'fs::File::create_new'); OUT = ('io::stdout', 'io::stdio::stdout')
+    def is_output(tm):
+        return isinstance(tm, tuple) and tm and tm[0] == 'field' and tm[2] == 'output'
+    verdict = None      # True right, False wrong, None not read
+    if term is not None and term[0] == 'optcase' and is_output(term[1]):
+        a_, b_ = term[3], term[4]
+        if has(a_, FILE) and not has(a_, OUT) and has(b_, OUT) and not has(b_, FILE): verdict = True
+        elif has(a_, OUT) and not has(a_, FILE) and has(b_, FILE) and not has(b_, OUT): verdict = False
+    elif term is not None and term[0] == 'ite':
+        cnd, a_, b_ = term[1], term[2], term[3]
+        neg = False
+        while isinstance(cnd, tuple) and cnd and cnd[0] == 'un' and cnd[1] == 'Not': cnd = cnd[2]; neg = not neg
+        if isinstance(cnd, tuple) and cnd and cnd[0] == 'call' and cnd[1].split('::')[-1] in ('is_some', 'is_none') and len(cnd[2]) == 1 and is_output(cnd[2][0]):
+            some = (cnd[1].split('::')[-1] == 'is_some') != neg
+            file_then = has(a_, FILE) and not has(a_, OUT) and has(b_, OUT) and not has(b_, FILE)
+            out_then = has(a_, OUT) and not has(a_, FILE) and has(b_, FILE) and not has(b_, OUT)
+            if file_then or out_then: verdict = (file_then == some)
+    R.count('X8:writer-choice'); R.obligation(verdict is not False, 'X8 writer choice ' + crate_name)
+    if verdict is False:
+        R.violation('%s::main / X8 / output destination' % crate_name, 'X8', 'the formula must be written to the OUTPUT file when one is named and to standard output otherwise; the writer is %s' % _flow.show(term)[:160], t['span']['loc'])
 
 def rule_X8_flush(F, R, crate_name):
     """what was written reaches the file, or the run fails: the buffered writer of main is flushed explicitly and the result of the flush
